@@ -28,7 +28,8 @@ theorem formatAppend_missing (L : Lib) (v : Verb) (args : List Value) (h : args.
     formatAppend L v args = .err "not enough arguments" := by
   have : args[v.argNum - 1]? = none := by
     apply List.getElem?_eq_none; omega
-  simp [formatAppend, this]
+  have h0 : (v.argNum == 0) = false := by simp; omega
+  simp [formatAppend, this, h0]
 
 end StdNum
 end CtyModel
